@@ -139,6 +139,13 @@ impl Naming {
                     fwd.insert(*k, Slot::numeric(*k));
                 }
             }
+            "num0" => {
+                // the names the library itself uses for shapes: $0, $1, .. (a node written with them may already
+                // LOOK canonical)
+                for k in &names {
+                    fwd.insert(*k, Slot::numeric(*k - 1));
+                }
+            }
             "num-desc" => {
                 for k in &names {
                     fwd.insert(*k, Slot::numeric(1000 - *k));
@@ -242,16 +249,27 @@ impl Naming {
 
 /// Term -> RecExpr<L> through the language's own `from_syntax`
 /// (operator, direct slots, then per child its binders and a child placeholder).
+/// operators whose direct slots come AFTER the children in the library's syntax (`W(AppliedId, Slot)`)
+pub const POST_SLOT_OPS: [&str; 2] = ["w", "wb"];
+
 pub fn to_recexpr<L: Language>(t: &Term, nm: &Naming) -> Result<RecExpr<L>, String> {
     let mut elems = vec![SyntaxElem::String(t.op.clone())];
-    for x in &t.sl {
-        elems.push(SyntaxElem::Slot(nm.slot(*x)));
+    let post = POST_SLOT_OPS.contains(&t.op.as_str());
+    if !post {
+        for x in &t.sl {
+            elems.push(SyntaxElem::Slot(nm.slot(*x)));
+        }
     }
     for c in &t.ch {
         for x in &c.bd {
             elems.push(SyntaxElem::Slot(nm.slot(*x)));
         }
         elems.push(SyntaxElem::AppliedId(AppliedId::null()));
+    }
+    if post {
+        for x in &t.sl {
+            elems.push(SyntaxElem::Slot(nm.slot(*x)));
+        }
     }
     let node = L::from_syntax(&elems).ok_or_else(|| format!("from_syntax failed for {}", t.show()))?;
     if node.applied_id_occurrences().len() != t.ch.len() {
@@ -309,7 +327,8 @@ impl<'a> BackNamer<'a> {
         }
         // slots before the first child of a node WITH children are binders of that child in
         // all harness languages; a node without children holds its slots directly.
-        let sl = if ch.is_empty() { pending } else { assert!(pending.is_empty()); Vec::new() };
+        // (slots AFTER the last child are direct slots again: POST_SLOT_OPS)
+        let sl = pending;
         Term { op, sl, ch }
     }
 }
